@@ -223,6 +223,16 @@ def engine_check(prop, tier, level="model_checking", n_quick=240, n_thorough=240
     for e in errs[:3]:
         rep.error(f"harness failed to build/record scenario seed={e['seed']} family={e['family']}: {e['harness_error']}")
     good = [t for t in traces if "harness_error" not in t and len(t["ev"]) > 1]
+    # the specialised composite and its guarantees (C11: no particle displaced twice, count reported; C05: one direction,
+    # no label deleted twice) are owed to every composite built with + and * from moves of one kind (Algebra.tla's Meaning):
+    # the scenario grammar builds all its composites that way except the entry named "swap" (a hand-made generic one)
+    for t in good:
+        for name, entry in t["setup"]["moves"].items():
+            kinds = {t["setup"]["mobj"][m]["kind"] for m in entry["elems"]}
+            want = {"disp": "cdisp", "exch": "cexch"}.get(next(iter(kinds))) if len(kinds) == 1 else None
+            if entry["ctype"] == "plain" and want and name != "swap" and prop in ({"C11"} if want == "cdisp" else {"C05"}):
+                rep.violation(f"composite-type:{want}-built-as-plain", f"{prop}: the table entry '{name}' was built with + and * from {len(entry['elems'])} {next(iter(kinds))} moves but is a plain composite: its elements choose their particles independently (same particle twice, nothing reported)",
+                              {"setup": t["setup"], "scenario_seed": t["setup"].get("scenario_seed"), "family": t["setup"].get("family")})
     fails, done, r = qtrace.validate(good)
     if r.rc != 0 or len(done) != len(good):
         rep.error(f"TLC trace validation failed rc={r.rc} done={len(done)}/{len(good)}: {r.out[-1500:]}")
